@@ -355,12 +355,18 @@ fn run(ctx: &RunCtx) -> Result<(), Violation> {
     let has_avx2 = std::arch::is_x86_feature_detected!("avx2");
     #[cfg(not(target_arch = "x86_64"))]
     let has_avx2 = false;
-    if simd != (has_avx2 && !ctx.scalar_worker) {
+    if simd && ctx.scalar_worker {
+        // the statement names WIREFILTER_USE_AVX2=0 as what selects the scalar fallback
         return Err(v(
             "env-switch",
-            if ctx.scalar_worker { "scalar-worker-uses-simd" } else { "simd-worker-uses-scalar" },
+            "scalar-worker-uses-simd",
             format!("WIREFILTER_USE_AVX2=0 set: {}, cpu has avx2: {has_avx2}, engine reports simd_active = {simd}", ctx.scalar_worker),
         ));
+    }
+    if !simd && has_avx2 && !ctx.scalar_worker {
+        // nothing says the SIMD path must exist or be chosen: an engine that answers from the portable path everywhere
+        // satisfies the property (the evidence then shows zero SIMD workers - a statement about coverage, not a finding)
+        kernel::count("c10.simd_available_but_not_used");
     }
     kernel::count(if simd { "c10.runs_simd" } else { "c10.runs_scalar" });
     if l >= 2 && hits > 0 && misses > 0 {
